@@ -146,6 +146,8 @@ func writeEvidence(prop, tier string, seed int64, reports []*harnessReport, solv
 	if scan != nil {
 		cov["map_range_sites"] = scan.Sites
 		cov["map_range_sites_uncovered"] = scan.Uncovered
+		cov["goroutine_start_sites"] = scan.GoSites
+		cov["goroutine_start_sites_uncovered"] = scan.GoUncovered
 		cov["map_range_table_stale_entries"] = scan.Stale
 		for _, u := range scan.Uncovered {
 			inconcl = append(inconcl, "uncovered map range in "+u)
